@@ -318,3 +318,51 @@ def table_callees(cls, fn, call):
     if lit is None or any(k is None for k in lit.keys):
         return None
     return list(zip(lit.keys, lit.values))
+
+
+def find_dict_literal(cls, expr, depth=0, fn=None):
+    """The one dict display an expression denotes when it is written directly, wrapped in a copying / read-only wrapper (dict(), copy(),
+    types.MappingProxyType()), or produced by argument-less helper methods of the class that return such an expression - possibly through a
+    build-once cache (a local / class attribute tested against None before it is filled).  None when there is not exactly one display."""
+    WRAPPERS = ('dict', 'copy.copy', 'copy.deepcopy', 'types.MappingProxyType', 'MappingProxyType', 'collections.OrderedDict', 'OrderedDict')
+    found = []
+
+    def walk(e, d, seen):
+        if d > 8 or e is None:
+            return
+        if isinstance(e, ast.Dict):
+            if not any(x is e for x in found):
+                found.append(e)
+            return
+        if isinstance(e, ast.Call):
+            cn = call_name(e) or ''
+            if cn in WRAPPERS and len(e.args) == 1 and not e.keywords:
+                return walk(e.args[0], d + 1, seen)
+            f = e.func
+            if isinstance(f, ast.Attribute) and isinstance(f.value, ast.Name) and f.value.id in ('self', 'cls', cls.name) and not e.args and not e.keywords:
+                m = methods(cls).get(f.attr)
+                if m is not None and f.attr not in seen:
+                    for r in [x for x in walk_local(m) if isinstance(x, ast.Return) and x.value is not None]:
+                        walk_ret(m, r.value, d + 1, seen | {f.attr})
+            return
+
+    def walk_ret(m, v, d, seen):
+        if isinstance(v, ast.Name):
+            for a in [x for x in walk_local(m) if isinstance(x, ast.Assign) and any(isinstance(t, ast.Name) and t.id == v.id for t in x.targets)]:
+                walk_ret(m, a.value, d + 1, seen) if isinstance(a.value, (ast.Name, ast.Attribute)) and d < 8 else walk(a.value, d, seen)
+        elif isinstance(v, ast.Attribute) and isinstance(v.value, ast.Name) and v.value.id in ('cls', 'self', cls.name):
+            # a build-once cache kept on the class / instance: whatever the class assigns to it
+            for m2 in methods(cls).values():
+                for a in [x for x in walk_local(m2) if isinstance(x, ast.Assign)]:
+                    if any(isinstance(t, ast.Attribute) and t.attr == v.attr and isinstance(t.value, ast.Name) and t.value.id in ('cls', 'self', cls.name) for t in a.targets):
+                        if isinstance(a.value, ast.Name):
+                            walk_ret(m2, a.value, d + 1, seen)
+                        else:
+                            walk(a.value, d + 1, seen)
+        else:
+            walk(v, d, seen)
+    if fn is not None and isinstance(expr, (ast.Name, ast.Attribute)):
+        walk_ret(fn, expr, depth, set())
+    else:
+        walk(expr, depth, set())
+    return found[0] if len(found) == 1 else None
